@@ -280,10 +280,33 @@ Proof.
   - apply IH; [discriminate | exact Hr | exact HL].
 Qed.
 
-Lemma follows_dot_head (a : pos) l : fst a = ch_dot :: l -> follows_dot a = true.
+Lemma word_start_snd_eq r L nx :
+  r <> [] -> forallb is_id_char r = true -> no_id_head L = true ->
+  snd (word_start (r ++ L) nx) = Some (last r 0%N).
 Proof.
-  destruct a as [al an]. cbn [fst]. intros ->. unfold follows_dot. cbn [fst snd last_non_space].
-  change (is_space ch_dot) with false. cbn [fst]. reflexivity.
+  revert nx. induction r as [|c r IH]; intros nx Hne Hr HL; [congruence|].
+  cbn in Hr. apply andb_prop in Hr as [Hc Hr]. cbn [app word_start]. rewrite Hc.
+  destruct r as [|c2 r2].
+  - cbn [app last]. destruct L as [|d L]; cbn [word_start snd]; [reflexivity|].
+    cbn in HL. destruct (is_id_char d); [discriminate|]. reflexivity.
+  - rewrite IH; [reflexivity | discriminate | exact Hr | exact HL].
+Qed.
+
+(* a word (reversed: c :: r) directly before a dot, the word not starting with a digit: what follows the dot is an
+   attribute name *)
+Lemma follows_dot_word (a : pos) c r L :
+  fst a = ch_dot :: c :: r ++ L ->
+  forallb is_id_char (c :: r) = true -> no_id_head L = true ->
+  is_digit (last (c :: r) 0%N) = false ->
+  follows_dot a = true.
+Proof.
+  destruct a as [al an]. cbn [fst]. intros -> Hw HL Hd. unfold follows_dot. cbn [fst snd last_non_space].
+  change (is_space ch_dot) with false. cbn [fst]. change (N.eqb ch_dot ch_dot) with true. cbv iota.
+  assert (Hc : is_id_char c = true) by (cbn in Hw; now apply andb_prop in Hw as [? _]).
+  cbn [last_non_space]. rewrite (id_not_space c Hc). cbn [fst snd]. rewrite Hc.
+  change (c :: r ++ L) with ((c :: r) ++ L).
+  rewrite (word_start_snd_eq (c :: r) L (Some ch_dot)); [|discriminate | exact Hw | exact HL].
+  cbn [oc_is]. now rewrite Hd.
 Qed.
 
 Section Dotted.
@@ -421,6 +444,7 @@ Proof. unfold nth_ch. now rewrite drop_app. Qed.
 
 Theorem split_dotted_prefix (kws : list text) (pre v w post raw : text) :
   v <> [] -> forallb is_id_char v = true -> is_kw kws v = false ->
+  oc_is is_digit (hd_error v) = false ->
   forallb is_id_char w = true ->
   ends_from (rev v ++ rev pre) = false ->
   word_boundary_before (rev pre) (last (pre ++ v ++ ch_dot :: w ++ post) 0%N) = true ->
@@ -429,7 +453,7 @@ Theorem split_dotted_prefix (kws : list text) (pre v w post raw : text) :
           slice raw (tlen pre + tlen v + 1) (tlen pre + tlen v + 1 + tlen w),
           (tlen pre + tlen v + 1)%N).
 Proof.
-  intros Hvne Hv Hvk Hw Hfrom Hb.
+  intros Hvne Hv Hvk Hvd Hw Hfrom Hb.
   unfold word_boundary_before in Hb. apply andb_prop in Hb as [HL Hdot].
   destruct dot_facts as (Dnl & Dsp & Dq & Dcl & Did & Ddd).
   set (P := pre ++ v ++ [ch_dot]).
@@ -445,6 +469,8 @@ Proof.
   destruct (rev_nonempty v Hvne) as (cv & rv & Erv).
   assert (Hcv : forallb is_id_char (cv :: rv) = true) by (rewrite <- Erv, forallb_rev; exact Hv).
   assert (Hkv : is_kw kws (rev (cv :: rv)) = false) by (rewrite <- Erv, rev_involutive; exact Hvk).
+  assert (Hlastd : is_digit (last (cv :: rv) 0%N) = false).
+  { rewrite <- Erv. destruct v as [|v0 v']; [congruence|]. cbn [rev]. rewrite last_last. exact Hvd. }
   assert (Hfrom' : ends_from (cv :: rv ++ rev pre) = false) by (rewrite app_comm_cons, <- Erv; exact Hfrom).
   assert (Hbound : match fst (last_non_space (rev pre) None) with
                    | [] => N.eqb lastc ch_dot = false
@@ -504,7 +530,7 @@ Proof.
     assert (HwsL : fst (word_start (c :: r ++ Ld) nx) = Ld).
     { change (c :: r ++ Ld) with ((c :: r) ++ Ld). now apply word_start_app. }
     rewrite (pwds_word_exact kws lastc (S (S (S (S (S m))))) c (r ++ Ld) nx Hc);
-      [|right; right; apply (follows_dot_head _ (cv :: rv ++ rev pre)); exact HwsL].
+      [|right; right; apply (follows_dot_word _ cv rv (rev pre)); [exact HwsL | exact Hcv | exact HL | exact Hlastd]].
     destruct (word_start (c :: r ++ Ld) nx) as [ql qn] eqn:Eq. cbn [fst] in HwsL. subst ql.
     unfold Ld at 1.
     destruct (primary_loop_one_dot kws lastc (S (S (S m))) cv rv (rev pre) qn Hcv Hkv Hfrom' HL Hbound) as [nx' [-> _]].
